@@ -233,6 +233,36 @@ func genC08(env *core.Env, emit func(core.Case)) {
 			}
 		}
 	}
+	// ECH extension fields at their extremes on a FIRST hello: empty enc (legal only on a retry), empty
+	// payload, one-byte enc, with a config id and suite the server holds and with unknown ones
+	for rep := 0; rep < env.Pick(2, 10); rep++ {
+		_, sealed := validTuple()
+		for vi := 0; vi < 6; vi++ {
+			h, _, _ := gen.ParseRecord(sealed.Rec)
+			e, i := gen.FindECH(h)
+			switch vi {
+			case 0:
+				e.Enc = nil
+			case 1:
+				e.Enc = nil
+				e.ConfigID++
+			case 2:
+				e.Payload = nil
+			case 3:
+				e.Enc = e.Enc[:1]
+			case 4:
+				e.Enc = nil
+				e.Payload = nil
+			case 5:
+				e.Enc = nil
+				e.AEAD = e.AEAD%3 + 1
+			}
+			h.Exts[i] = gen.Ext{Type: 0xfe0d, Data: e.Data()}
+			rec := h.Record(0x0301)
+			run("echFieldExtremes", true, rec, oneChunk(rec), backendFlight())
+			run("echFieldExtremes", false, rec, oneChunk(rec), backendFlight())
+		}
+	}
 	// retried hellos of every kind (well-formed and ill-formed), drained with several read sizes
 	for rep := 0; rep < env.Pick(2, 12); rep++ {
 		for _, rc := range retryCases(r) {
